@@ -214,9 +214,10 @@ Inductive par_step : pst -> pst -> Prop :=
     par_step (mkPst (m :: todo) 0 0 [] f e ob None)
              (mkPst todo 0 0 [] f e (mkPO true false SNacked 0 [] [] false :: ob) (Some true))
 (* the wrapped node deals with the message *)
-| PS_process : forall todo i d cq1 cq2 m f e ob t,
-    par_step (mkPst todo i d (cq1 ++ mkJob m JBusy false false :: cq2) f e ob t)
-             (mkPst todo i d (cq1 ++ after_process m :: cq2) f e ob t)
+| PS_process : forall todo i d cq1 cq2 j f e ob t,
+    j_st j = JBusy ->
+    par_step (mkPst todo i d (cq1 ++ j :: cq2) f e ob t)
+             (mkPst todo i d (cq1 ++ after_process (j_msg j) :: cq2) f e ob t)
 (* job.Done meets job.Wait at the head of the coordinator's queue *)
 | PS_collect : forall todo i d j a cq f e ob t,
     j_st j = JDone a ->
